@@ -303,7 +303,7 @@ func c18RunSet(res *c18Res, feeA, feeI uint, set []c18Proof, onlyAmount int, onl
 					// the known selection defect: rounding the fee up per keyset group makes the wallet believe it is short
 					if mix == "mixed-keyset-content" && need-feeAll+feeGroups > balance {
 						mix += "/short-only-by-per-group-fee-rounding"
-					} else if mix == "mixed-keyset-content" && fees && inactiveSum >= amount && inactiveSum < need {
+					} else if mix == "mixed-keyset-content" && inactiveSum >= amount && inactiveSum < need {
 						// ... and the inactive-first selection stops once the inactive proofs cover the bare amount, then finds the
 						// fees uncovered instead of adding active proofs
 						mix += "/inactive-proofs-cover-amount-but-not-fees"
